@@ -23,7 +23,7 @@ REG = {
  'C03': (True,
    "An independent X.690 reference written in Coq from the standard (Spec/X690.v: canonical DER/CER encoders and a TLV-tree reader). Theorems: the DER encoder's output equals the reference byte for byte, in both directions (success and refusal), for simple types under any tags and SEQUENCE/SEQUENCE OF nesting with OPTIONAL/DEFAULT components; the CER encoder's output equals the reference's CER for simple types incl. segmented strings and meets the canonical-form rules; every BER/CER/DER encoder output in every mode is read by the reference reader to the same abstract value. Per input (all types): DER/CER bytes compared with the reference evaluated by vm_compute, BER/CER outputs read back.",
    "Rocq/Coq: independent executable X.690 specification + equivalence proofs (induction over types and digit recursions) + evaluation in the kernel's VM",
-   'DER = reference for SET/SET OF/CHOICE/ANY and CER = reference for containers are decided per input only. Known findings F01, F24 (pinned).'),
+   'CER completeness and cer_canonical for containers are decided per input only. Known findings F01, F24 (pinned).'),
  'C05': (True,
    'Theorems: generic schedule independence for any interaction-tree decoder; and unconditionally for the decoder model: every run that consumes an encoding is a clean run (global invariant), hence for every value of the universe (definite mode) and every stage-2 value in indefinite/segmented/CER mode, ANY arrival schedule (any partition, polls, no end-of-stream needed) yields exactly the one-shot object at the end of the encoding. Tied to /repo by all 2^(n-1) partitions of short streams, sampled schedules with polls/short reads/late close on seekable and non-seekable doubles incl. streams longer than one buffer, compared with `drive` evaluated in Coq.',
    'Rocq/Coq proof (simulation + induction over schedules and interaction trees; global cleanliness invariant) + vm_compute correspondence against /repo',
@@ -47,7 +47,7 @@ REG = {
  'C13': (True,
    "Theorems: identifier octets for every class, form and number (unbounded), long form minimal, IMPLICIT/EXPLICIT algebra, the emitted identifiers are the type's tags outermost first; decoding with the own type accepts (whole universe); decoding with a type whose tags differ in class or number at any level, or with more tags, is refused by every decoder (simple types under any tag stack). Tied to /repo by the class x number grid and an accept/reject search.",
    'Rocq/Coq proof (induction over base-128/256 digit recursion and tag stacks) + vm_compute correspondence against /repo',
-   'Rejection for constructed base types is decided per input. One shape is genuinely ambiguous BER (witness in Props/C13.v).'),
+   'Shapes where the encodings coincide (an entered non-universal container vs an EXPLICIT wrapper) are genuinely ambiguous BER (witnesses in Props/C13.v).'),
  'C14': (True,
    "Inductive model of the 12 public constraint classes with a 3-valued evaluator following each _testValue, an independent "
    "set-theoretic denotation, and proofs by nested structural induction that evaluation = denotation at any depth, derived types "
@@ -60,16 +60,13 @@ REG = {
    'Rocq/Coq proof (induction over the type; permutation invariance of stable sorts; induction over histories) + vm_compute correspondence against /repo',
    'CER analogue proved except SET OF of constructed members. Known findings F24 (pinned), F18a, F18d.'),
  'C08': (True,
-   "The decoder model carries explicit Crash outcomes wherever the code performs an unguarded partial operation; theorems: on a closed stream "
-   "the decoder never waits (always finishes) for every codec/fuel/type/input, the position never passes the input length; the crash-free "
-   "and value-not-placeholder claims are decided per input: all byte strings up to length 2 (3 thorough) over 18 structural octets x 3 "
-   "decoders x 16 guiding types, plus mutants of valid encodings, outcome class compared with the model evaluated in Coq.",
-   "Rocq/Coq proof (totality by structural recursion + induction over interaction trees) + exhaustive/mutation correspondence (vm_compute)",
-   "Known finding F22 (MemoryError for absurd lengths on real file readers). Step bound measured on stream doubles (reads <= 8*len+16)."),
+   'Theorems on the decoder model, for EVERY byte string, decoder and guiding type (or none): the outcome is a value object with a strictly shorter remainder or a library error (C08_fails_cleanly); every place where the Python code performs an unguarded partial operation is an explicit crash outcome of the model and none is reachable (C08_never_crashes); the fuel never runs out - every loop iteration consumes input (C08_never_starves, explicit bound). That the model has a crash site wherever the code has one is tied to /repo by all byte strings up to length 2 (3 thorough) over 18 structural octets x 3 decoders x 17 guiding types, contents sweeps per primitive type (all 256 first octets of BIT STRING/OID/REAL, REAL character forms), mutants of valid encodings, outcome class compared with the model evaluated in Coq.',
+   'Rocq/Coq proof (invariant over all leaves of the interaction tree by induction on fuel; weakest-precondition calculus with a potential function) + exhaustive/mutation correspondence (vm_compute)',
+   'Built-in exceptions of CPython itself (MemoryError: known finding F22) are outside the model. The model declines (EUnmodelled) on decimal REAL and unmodelled text codecs; those inputs are decided on the implementation alone.'),
  'C09': (True,
    'Theorem (C09_all_forms): whatever the independent X.690 reader accepts as an encoding of abstract value a under T (any mix of length forms, definite/indefinite per level, nested segmentation, any non-zero TRUE, SET in any order, DEFAULT/OPTIONAL present or absent) the BER decoder accepts with the same abstract value and remainder, for every type without CHOICE/ANY. Per input: an independent reference generator of BER(T, v) validated in Coq by the reference reader, decoded by implementation and model.',
    'Rocq/Coq proof (equivalence of two independent parsers, induction over the parse tree and the type) + reference-validated differential execution (vm_compute)',
-   'Side conditions of the theorem: binary REAL with at least one mantissa octet; ASCII-repertoire strings below 0x80 (library checks repertoire). CHOICE/ANY per input only.'),
+   'Side conditions of the theorem: binary REAL with at least one mantissa octet; ASCII-repertoire strings below 0x80 (library checks repertoire); no UNIVERSAL 0 node inside an ANY.'),
  'C10': (True,
    "Theorems for EVERY byte string, codec and guiding type: a returned value is a complete, well-typed value of exactly the guiding type and the remainder is a suffix of the input (C10_accepted_is_well_formed); the same codec's encoder accepts it (C10_accepted_is_reencodable); the consumed length is what the length octets said. Per input: valid, neighbour-type and mutated encodings - on acceptance independent well-formedness, re-encodability and the decode(encode) fixpoint; constrained types; time and REAL witnesses.",
    'Rocq/Coq proof (invariant of the decoder by induction on fuel, inversion through bind laws) + vm_compute correspondence against /repo',
